@@ -26,6 +26,24 @@ EXC_CODE = {"error": 1, "NameError": 2, "KeyError": 3}
 BUDGET = 5
 
 
+IMPL_WALL_S = {"quick": 150, "thorough": 900}
+_TIER = ["quick"]
+
+
+def impl(request, wall=None):
+    """Driver call under a hard wall-clock limit. A driver that does not come back in time is a
+    machinery failure with a verdict (CheckBroken -> VIOLATION ... no-failing-input-found), never a
+    silent death; single cases that block are already cut by the driver itself (WallClock)."""
+    import subprocess
+    limit = wall or IMPL_WALL_S[_TIER[0]]
+    try:
+        return C.run_impl("C20.py", request, timeout=limit)
+    except subprocess.TimeoutExpired:
+        raise C.CheckBroken("impl driver C20.py exceeded its wall-clock limit of %d s (%s)"
+                            % (limit, ", ".join("%s: %d cases" % (k, len(v)) for k, v in request.items()
+                                                if isinstance(v, list))))
+
+
 def _translator():
     p = os.path.join(C.VERIF, "harness", "translators", "C20_panid.py")
     spec = importlib.util.spec_from_file_location("C20_panid", p)
@@ -191,14 +209,17 @@ def ack_oracle(c, res):
             fails.append(("send #%d: frame sequence number is not previous+1 mod 256" % i, None, seq, s["frames"]))
         if o[1]:
             exp = fresh(seq, o[2])
-            if s["ret"] is not exp:
+            if s.get("ret") is True and "ack_seq" in s and s["ack_seq"] != seq:
+                fails.append(("send #%d returned an acknowledgement that does not carry the frame's sequence number" % i,
+                              None, seq, s["ack_seq"]))
+            if s.get("ret") is not exp:
                 what = ("send #%d reported success without an acknowledgement carrying its sequence number "
                         "received after the frame was sent" % i) if s["ret"] is True else \
                        ("send #%d reported failure although a fresh matching acknowledgement arrived before the "
                         "retry budget was spent" % i)
                 fails.append((what, None, exp, s["ret"]))
-        elif s["ret"] is not True:
-            fails.append(("send #%d (unacknowledged) did not return True" % i, None, True, s["ret"]))
+        elif s.get("ret") is not True:
+            fails.append(("send #%d (unacknowledged) did not return True" % i, None, True, s.get("ret")))
         seq = (seq + 1) % 256
     return fails
 
@@ -365,7 +386,7 @@ def gen_ack(ctx):
                 ops.append(["O", rng.choice([seq, seq, (seq + 1) % 256, rng.randrange(256)])])
             else:
                 wait = rng.random() < 0.8
-                ops.append(["S", wait, gen_hist(rng, seq), rng.choice([0, 0, 1, 2])])
+                ops.append(["S", wait, gen_hist(rng, seq), rng.choice([0, 0, 1, 2, 3, 6]), rng.random() < 0.25])
                 seq = (seq + 1) % 256
         cases.append({"seq0": seq0, "ops": ops, "kind": "random"})
     # boundaries of the retry budget
@@ -373,6 +394,21 @@ def gen_ack(ctx):
         for tail in ([["A", 9]], [], [["A", 8], ["A", 9]]):
             cases.append({"seq0": 9, "ops": [["S", True, [["T"]] * k + tail, 0]], "kind": "budget"})
             cases.append({"seq0": 9, "ops": [["S", True, [["A", 10]] + [["T"]] * k + tail, 1]], "kind": "budget"})
+    # several acknowledgements queued before send_data polls (they arrive while the PHY transmits, imm = all of
+    # them) or one per tick: the matching one first, in the middle, last; with data() and with
+    # send_data(return_ack=True)
+    m, x, y = 9, 10, 200
+    for pat in ([m, x], [m, x, y], [x, m, y], [x, m], [m], [m, m], [x, y, m], [x, y], [m, x, x, x, x, x]):
+        for imm in sorted({0, 1, len(pat)}):
+            for ra in (False, True):
+                for tail in ([], [["T"]] * 5):
+                    cases.append({"seq0": m, "ops": [["S", True, [["A", q] for q in pat] + tail, imm, ra],
+                                                     ["S", True, [["A", (m + 1) % 256]], 1, ra]], "kind": "burst"})
+    for _ in range(300 if ctx.thorough else 40):
+        seq0 = rng.randrange(256)
+        pat = [rng.choice([seq0, seq0, (seq0 + 1) % 256, (seq0 - 1) % 256, rng.randrange(256)]) for _k in range(rng.randrange(2, 6))]
+        cases.append({"seq0": seq0, "ops": [["S", True, [["A", q] for q in pat], rng.choice([len(pat), len(pat), 2, 1]),
+                                            rng.random() < 0.5]], "kind": "burst"})
     # stale acknowledgement with the same sequence number: overheard earlier ...
     cases.append({"seq0": 5, "ops": [["O", 5], ["S", True, [], 0]], "kind": "stale"})
     cases.append({"seq0": 5, "ops": [["O", 5], ["O", 6], ["S", True, [["T"], ["T"]], 0], ["S", True, [], 0]], "kind": "stale"})
@@ -502,12 +538,16 @@ def gen_choose(ctx):
 def shrink_ack(case):
     """Greedy removal of operations / events while some send still violates the property."""
     def failing(c):
-        r = C.run_impl("C20.py", {"ack": [c]})["ack"][0]
+        r = impl({"ack": [c]})["ack"][0]
         return bool(ack_oracle(c, r))
     cur = {"seq0": case["seq0"], "ops": [list(o) for o in case["ops"]]}
     for _round in range(8):
         cands = []
         ops = cur["ops"]
+        if len(ops) > 1:
+            # drop the first operation (a send consumes one sequence number) or the last one
+            cands.append({"seq0": (cur["seq0"] + (1 if ops[0][0] == "S" else 0)) % 256, "ops": ops[1:]})
+            cands.append({"seq0": cur["seq0"], "ops": ops[:-1]})
         for i in range(len(ops)):
             if ops[i][0] == "S" and not ops[i][1]:
                 continue    # dropping an unacknowledged send shifts the sequence numbers; keep
@@ -515,12 +555,12 @@ def shrink_ack(case):
                 cands.append({"seq0": cur["seq0"], "ops": ops[:i] + ops[i + 1:]})
             if ops[i][0] == "S":
                 for j in range(len(ops[i][2])):
-                    o2 = [ops[i][0], ops[i][1], ops[i][2][:j] + ops[i][2][j + 1:], 0]
+                    o2 = [ops[i][0], ops[i][1], ops[i][2][:j] + ops[i][2][j + 1:], max(0, ops[i][3] - (1 if j < ops[i][3] else 0))] + list(ops[i][4:])
                     cands.append({"seq0": cur["seq0"], "ops": ops[:i] + [o2] + ops[i + 1:]})
         cands = cands[:60]
         if not cands:
             break
-        res = C.run_impl("C20.py", {"ack": cands})["ack"]
+        res = impl({"ack": cands})["ack"]
         nxt = next((c for c, r in zip(cands, res) if ack_oracle(c, r)), None)
         if nxt is None:
             break
@@ -537,7 +577,7 @@ def shrink_hist(case):
         cands = [c for c in cands if any(o[0] == "F" for o in c["ops"])]
         if not cands:
             break
-        res = C.run_impl("C20.py", {"hist": cands})["hist"]
+        res = impl({"hist": cands})["hist"]
         nxt = next((c for c, r in zip(cands, res) if [f for f in hist_oracle(c, r) if f[1] is None]), None)
         if nxt is None:
             break
@@ -552,7 +592,7 @@ def shrink_addr(case):
         c["req"]["payload"] = pl
         c["req"]["seq0"] = 0
         cands.append(c)
-    res = C.run_impl("C20.py", {"addr": cands})["addr"]
+    res = impl({"addr": cands})["addr"]
     for c, r in zip(cands, res):
         if addr_oracle(c, r):
             return c, r
@@ -604,8 +644,10 @@ def translator_step(ctx):
 # ---------------------------------------------------------------------------
 
 def run(ctx):
+    _TIER[0] = ctx.tier
     C.build_dir(PID, clean=True)
     ctx.cov["trusted_base"] = [
+        "virtual Queue: queue.Queue of the MAC and service modules replaced from outside; a blocking get with timeout advances virtual time; hard wall-clock limits: 10 s per case inside the driver (SIGALRM -> the case is reported as raising WallClock), 150 s (quick) / 900 s (thorough) per driver call",
         "Coq 8.16.1 kernel + vm_compute (no native_compute); theorems closed under the global context (Print Assumptions checked each run)",
         "translator harness/translators/C20_panid.py (unverified text generator, fail-closed; validated each run by evaluating the generated choose_panid / panid_table against the real function and dict on 1.8k inputs inside Coq)",
         "hand-written model coq/theories/C20/Model.v (data/send_data/on_pdu/match_filter/indicate_data/ack wait; receiver as a state machine over PIB updates and frames, the MAC keeping no state but the PIB between frames) tied to whad/dot15d4/stack/mac/__init__.py by the correspondence of this run",
@@ -662,10 +704,10 @@ def run(ctx):
     ack_cases = [w["case"] for w in corpus_ack] + gen_ack(ctx)
     choose_cases = gen_choose(ctx)
     hist_cases = [w["case"] for w in corpus_hist] + gen_hist_cases(ctx)
-    r1 = C.run_impl("C20.py", {"addr": addr_cases, "ack": ack_cases, "choose": choose_cases, "table": True,
+    r1 = impl({"addr": addr_cases, "ack": ack_cases, "choose": choose_cases, "table": True,
                                "hist": hist_cases})
     raw_cases = gen_raw(ctx, addr_cases, r1["addr"])
-    r2 = C.run_impl("C20.py", {"raw": raw_cases})
+    r2 = impl({"raw": raw_cases})
     n_all = len(addr_cases) + len(ack_cases) + len(choose_cases) + len(raw_cases) + len(hist_cases)
     ctx.cov["evaluations"] = n_all
     ctx.cov["traces_validated_against_impl"] = n_all
@@ -713,7 +755,7 @@ def run(ctx):
         if cls:
             if counts[cls] == 1 and len(c["ops"]) < 40:
                 cc2 = shrink_ack(cc)
-                res2 = C.run_impl("C20.py", {"ack": [cc2]})["ack"][0]
+                res2 = impl({"ack": [cc2]})["ack"][0]
                 f2 = ack_oracle(cc2, res2)
                 if f2:
                     cc, res, (what, key, exp, obs) = cc2, res2, f2[0]
@@ -728,7 +770,7 @@ def run(ctx):
         if cls:
             if counts[cls] == 1:
                 hc2 = shrink_hist(hc)
-                res2 = C.run_impl("C20.py", {"hist": [hc2]})["hist"][0]
+                res2 = impl({"hist": [hc2]})["hist"][0]
                 f2 = [f for f in hist_oracle(hc2, res2) if f[1] is None]
                 if f2:
                     hc, res, (what, key, exp, obs) = hc2, res2, f2[0]
@@ -837,6 +879,8 @@ def run(ctx):
                 "rx_reserved_type_ignored": 0,
                 "ack_fresh_match": 0, "ack_budget_spent": 0, "ack_nonmatching_discarded": 0,
                 "ack_stale_in_queue_dropped": 0, "ack_late_after_return": 0, "seq_wraparound": 0,
+                "ack_burst_matching_then_others_before_first_poll": 0, "ack_burst_others_then_matching": 0,
+                "ack_send_data_return_ack": 0,
                 "choose_v01_compress": 0, "choose_v2_raise": 0, "choose_other_version": 0}
     for c, res in zip(addr_cases, r1["addr"]):
         r, b = c["req"], c["B"]
@@ -887,6 +931,13 @@ def run(ctx):
                 queued = []
                 ok = fresh(seq, o[2])
                 branches["ack_fresh_match" if ok else "ack_budget_spent"] += 1
+                burst = [ev[1] for ev in o[2][:o[3]] if ev[0] == "A"] if all(ev[0] == "A" for ev in o[2][:o[3]]) else []
+                if len(burst) >= 2 and seq in burst[:-1] and burst[-1] != seq:
+                    branches["ack_burst_matching_then_others_before_first_poll"] += 1
+                if len(burst) >= 2 and burst[0] != seq and seq in burst[1:]:
+                    branches["ack_burst_others_then_matching"] += 1
+                if len(o) > 4 and o[4]:
+                    branches["ack_send_data_return_ack"] += 1
                 seen = 0
                 for ev in o[2]:
                     if ev[0] == "A" and ev[1] != seq:
@@ -1000,9 +1051,9 @@ def replay(payload):
         return 0
     g = case["group"]
     if g == "table":
-        print("implementation now holds:", C.run_impl("C20.py", {"table": True})["table"])
+        print("implementation now holds:", impl({"table": True})["table"])
         return 0
-    r = C.run_impl("C20.py", {g: [case["case"]]})[g][0]
+    r = impl({g: [case["case"]]})[g][0]
     print("implementation now gives:", json.dumps(r))
     fails = {"addr": addr_oracle, "ack": ack_oracle, "choose": choose_oracle,
              "hist": hist_oracle}.get(g, lambda c, r: [])(case["case"], r)
